@@ -153,6 +153,13 @@ def run(tier, seed):
     os.environ["_C04_TIER"] = tier
     st = explore.explore_all("checks.c04", "scenario", plist, bound,
                              time_budget=(150 if tier == "quick" else 1500))
+    b3 = None
+    if tier == "thorough":
+        # three deviations on a few configurations (complete unless the time budget is hit; reported separately)
+        sub = [p for p in plist if p[2] == "none" and p[3] == "cs" and p[4] == 1 and p[5] == 0 and len(p[1]) == 1][:6]
+        st3 = explore.explore_all("checks.c04", "scenario", sub, 3, time_budget=420)
+        st.violations.extend(st3.violations)
+        b3 = {"configurations": len(sub), "executions": st3.executions, "by_deviations": st3.by_cost, "capped_by_time_budget": st3.capped}
     for v in st.violations:
         direction, msgs, macro, order, latency, blackout = v["params"]
         sig = v["sig"]
@@ -168,6 +175,7 @@ def run(tier, seed):
                 "every execution is an implementation execution. distinct_nontrivial = distinct final observation tuples.",
         "exhaustive": not st.capped,
         "samples": st.samples[:4],
+        "bound3_part": b3,
     }
     rep.assumptions = ["payload contents from a fixed marker family", "at most %d deviations per execution; macro steps idle4/burst are honest" % bound,
                        "original and copy < 32767 datagrams apart (all histories here are < 700 datagrams)"]
